@@ -783,3 +783,35 @@ def r_row0(A, ctx, scope, rule="R-ROW0"):
                         "treated with the first row's support / values and the decision values no longer "
                         "are those of the per-class binary fits", loc=loc(m, hits[0]) if hits else None)
     ctx.floor(rule, n, scope.get("floor", 2))
+
+
+def r_rowfilter(A, ctx, scope, rule="R-ROWFILTER"):
+    ctx.rule(rule, "fit hands the solver the samples it was given: between validation and solve no "
+             "estimator drops or re-weights rows of X / y (`X = X[mask]`): the documented objectives "
+             "are normalised by n_samples, leaving observations out rescales the penalty strength")
+    prog = A.prog
+    em = prog.modules.get("skglm.estimators")
+    funcs = [m for c in prog.estimators for nm, m in c.methods.items() if nm in ("fit", "path")]
+    if em and "_glm_fit" in em.functions:
+        funcs.append(em.functions["_glm_fit"])
+    n = 0
+    for f in funcs:
+        n += 1
+        hits = []
+        for st in ast.walk(f.node):
+            if not isinstance(st, ast.Assign) or not isinstance(st.targets[0], ast.Name):
+                continue
+            tgt = st.targets[0].id
+            if tgt not in ("X", "y", "Y", "X_"):
+                continue
+            for sub in ast.walk(st.value):
+                if isinstance(sub, ast.Subscript) and isinstance(sub.value, ast.Name) and sub.value.id in ("X", "y", "Y", "X_"):
+                    first = sub.slice.elts[0] if isinstance(sub.slice, ast.Tuple) else sub.slice
+                    full = isinstance(first, ast.Slice) and first.lower is None and first.upper is None
+                    if not full and not isinstance(first, ast.Constant):
+                        hits.append(st)
+        ctx.ob(rule, f"{f.fq}", not hits,
+               what=f"{f.qualname}: `{norm_src(hits[0])[:70] if hits else ''}` keeps a subset of the rows: the "
+                    "datafit is then normalised by the number of kept samples, not by n_samples as documented "
+                    "(alpha is silently rescaled)", loc=loc(f, hits[0]) if hits else None)
+    ctx.floor(rule, n, scope.get("floor", 10))
